@@ -19,6 +19,14 @@ CLAIMS = {
   "text": "Theorems (closed): per-format event->slot tables are injective both ways; a slot is populated with exactly the configured bytes iff its event is configured; the deb/ipk/apk/archlinux packager models embed every script verbatim for all byte strings (C09_verbatim_all_bytes); rpm verbatim for non-empty NUL-free scripts (C09_rpm_verbatim_partial) and refuted otherwise (C09_rpm_refuted, known findings C09-K1/K2). Tie: every subset of every format's slots (exhaustive) with pairwise distinct binary bytes, other formats' slots populated, each configuration also run once per missing script file and again intact; decoded control members / scriptlet tags / .INSTALL compared with the extracted model and checker check_C09.",
   "note": "Trusted: Coq kernel, extraction, OCaml driver, Go harness and decoders. The .INSTALL member is compared as a whole with the rendering (function wrappers in sorted order); scriptlet interpreter tags (/bin/sh) are not checked.",
  },
+ "C03": {
+  "text": "Every digest, checksum and size a package stores about itself (deb md5sums and Installed-Size; apk datahash, PAX SHA-1 checksums, size; archlinux .MTREE time/mode/size/md5/sha256/link per entry and .PKGINFO size; rpm header SHA-256, payload digest, per-file SHA-256, file sizes, archive and payload size tags; ipk Installed-Size) is recomputed from the bytes the independent decoders extract and compared with the stored value, on payload shapes from empty to multi-MiB under every compression setting; the extracted checker check_C03 decides which stored value must equal which recomputed one. Theorems (closed) fix the structure: one md5sums line per regular payload file with that member's name and digest, in payload order; the KiB estimate; a deb carrying the model's md5sums and estimate passes the checker for every payload.",
+  "note": "Honest weight: the theorems are about structure (which stream, name, order); hash functions are parameters and the equality of stored and recomputed digests is established by recomputation on generated inputs, not by proof. The apk 'hash taken under the gzip layer' dataflow is covered by recomputing SHA-256 of the data segment as shipped. Trusted: Coq kernel, extraction, OCaml driver, Go harness, decoders, Go crypto/*.",
+ },
+ "C04": {
+  "text": "Every generated package is read end to end by readers that share nothing with the writers' call sites (own ar, rpm lead/header, cpio-newc, mtree readers; stdlib tar/gzip; xz, zstd): member order, debian-binary content, compression name vs stream, 8-byte signature alignment, cpio entries = header file list minus ghosts and sorted, apk segments 512-aligned with cut control/signature segments and a complete data tar whose concatenation reads as one tar with .PKGINFO first, ipk nesting, archlinux .MTREE listing .PKGINFO first and .INSTALL iff scripts. The extracted checker check_names decides uniqueness, relativity, './' prefix, '..' freedom, directory slashes and parents-before-children of every tar's names. Theorem C04_tar_names_wellformed_partial (closed): for every plan the payload model's names satisfy all of those clauses except parents-before-children (not yet a theorem).",
+  "note": "PARTIAL at the theorem level: parents-before-children and the container layouts (ar, apk cut/full segments, rpm alignment) are decided by the decoders and the checker on generated packages, not proved; compressed streams are judged by independent decompressors. Trusted: Coq kernel, extraction, OCaml driver, Go harness and decoders.",
+ },
 }
 TECH = "Rocq proof over hand-written Gallina model + extraction-based correspondence check against the Go implementation"
 props = [json.loads(l) for l in open(V + "/properties.jsonl")]
